@@ -75,3 +75,57 @@ Proof.
   apply add_mod_zero; [apply (mod_pow2_of_mod_pow2 _ (cluster_shift i)); [lia|exact Ht]|].
   unfold hc_rb_slice_off_in_table. apply shl64_aligned; lia.
 Qed.
+
+(* slice I/O lengths: a slice is 2^slice_bits bytes, a multiple of the block size, and it lies inside its table
+   cluster (offset in table + slice size <= cluster size), so slice I/O never leaves the table it belongs to *)
+Lemma slice_len_aligned n b : b <= n -> 2 ^ n mod 2 ^ b = 0.
+Proof.
+  intros H. replace n with ((n - b) + b) by lia. rewrite N.pow_add_r. apply N.mod_mul. apply N.pow_nonzero. lia.
+Qed.
+
+Lemma slice_in_table idx cs sb : sb <= cs -> cs <= 21 -> idx < 2 ^ (cs - 3) -> 3 <= sb ->
+  shl64 (N.shiftr idx (sb - 3)) sb + 2 ^ sb <= 2 ^ cs.
+Proof.
+  intros Hle Hcs Hidx H3.
+  assert (Q : N.shiftr idx (sb - 3) < 2 ^ (cs - sb)).
+  { apply shiftr_lt. replace (cs - sb + (sb - 3)) with (cs - 3) by lia. exact Hidx. }
+  assert (E : 2 ^ cs = 2 ^ (cs - sb) * 2 ^ sb) by (rewrite <- N.pow_add_r; f_equal; lia).
+  assert (B : N.shiftr idx (sb - 3) * 2 ^ sb + 2 ^ sb <= 2 ^ cs) by (rewrite E; nia).
+  assert (C : 2 ^ cs < 2 ^ 64) by (apply pow2_lt_mono; lia).
+  unfold shl64. rewrite N.shiftl_mul_pow2, N.mod_small; [exact B|]. pose proof (pow2_pos sb). lia.
+Qed.
+
+Theorem l2_slice_inside_table i g :
+  info_rng i -> sg_l2_slice_off_in_table i g + 2 ^ l2_slice_bits i <= 2 ^ cluster_shift i.
+Proof.
+  intros R. dR R. unfold sg_l2_slice_off_in_table. rewrite r_l2sis0.
+  apply slice_in_table; try lia. unfold sg_l2_index. rewrite r_l2mask0. apply land_mask_lt.
+Qed.
+
+Theorem l2_slice_len_aligned i :
+  info_rng i -> block_size_shift i <= l2_slice_bits i -> 2 ^ l2_slice_bits i mod 2 ^ block_size_shift i = 0.
+Proof. intros _ H. apply slice_len_aligned. exact H. Qed.
+
+Theorem rb_slice_len_aligned i :
+  info_rng i -> block_size_shift i <= rb_slice_bits i -> 2 ^ rb_slice_bits i mod 2 ^ block_size_shift i = 0.
+Proof. intros _ H. apply slice_len_aligned. exact H. Qed.
+
+Lemma slice_in_table_gen idx cs sb e s : sb <= cs -> cs <= 21 -> s <= e -> e - s = cs - sb -> idx < 2 ^ e ->
+  shl64 (N.shiftr idx s) sb + 2 ^ sb <= 2 ^ cs.
+Proof.
+  intros Hle Hcs Hse He Hidx.
+  assert (Q : N.shiftr idx s < 2 ^ (cs - sb)).
+  { apply shiftr_lt. replace (cs - sb + s) with e by lia. exact Hidx. }
+  assert (E : 2 ^ cs = 2 ^ (cs - sb) * 2 ^ sb) by (rewrite <- N.pow_add_r; f_equal; lia).
+  assert (B : N.shiftr idx s * 2 ^ sb + 2 ^ sb <= 2 ^ cs) by (rewrite E; nia).
+  assert (C : 2 ^ cs < 2 ^ 64) by (apply pow2_lt_mono; lia).
+  unfold shl64. rewrite N.shiftl_mul_pow2, N.mod_small; [exact B|]. pose proof (pow2_pos sb). lia.
+Qed.
+
+Theorem rb_slice_inside_table i h :
+  info_rng i -> hc_rb_slice_off_in_table i h + 2 ^ rb_slice_bits i <= 2 ^ cluster_shift i.
+Proof.
+  intros R. dR R. unfold hc_rb_slice_off_in_table. rewrite r_rbsis0.
+  apply (slice_in_table_gen _ _ _ (cluster_shift i + 3 - refcount_order i)); try lia.
+  unfold hc_rb_index. rewrite r_rbmask0. apply land_mask_lt.
+Qed.
